@@ -101,7 +101,7 @@ func resources(p *program) (core.Dict, func(core.IndirectRef) (core.Object, erro
 		if len(res) > 0 {
 			d["Resources"] = res
 		}
-		data := render(f.ops)
+		data := f.data()
 		d["Length"] = core.Int(len(data))
 		objs[numOf[name]] = &core.Stream{Dict: d, Data: data}
 	}
@@ -154,6 +154,9 @@ func runCase(c *fw.Ctx, id string, idx int) {
 	}
 
 	detail := map[string]any{"program": desc, "features": keys(p.features)}
+	if p.features["form-damaged-after-q"] {
+		detail["damaged_forms"] = true
+	}
 	cls := "text"
 	if p.features["quote-operators"] {
 		cls = "text+quote" // separate class: needs the '/" tokeniser fix of C06
@@ -269,6 +272,14 @@ func compareFragments(c *fw.Ctx, id, cls string, frags []text.TextFragment, ref 
 			c.Fail("", cls+"/position/"+s.Operator, id, fmt.Sprintf("show #%d (%s %s, form depth %d): origin (%.9g, %.9g), want (0,0) x Tm x CTM = (%.9g, %.9g)", n, s.Text, s.Operator, s.FormDepth, f.X, f.Y, s.X, s.Y), detail)
 			return
 		}
+	}
+	if detail["damaged_forms"] == true {
+		// a reader may salvage the text in front of the damage of a damaged form
+		// or skip the form: fragments beyond the predicted shows are not judged
+		if len(frags) < len(ref.Shows) {
+			c.Fail("", cls+"/fragment-count", id, fmt.Sprintf("%d fragments for %d show operations outside the damaged forms", len(frags), len(ref.Shows)), detail)
+		}
+		return
 	}
 	if len(frags) != len(ref.Shows) {
 		c.Fail("", cls+"/fragment-count", id, fmt.Sprintf("%d fragments for %d show operations", len(frags), len(ref.Shows)), detail)
@@ -412,7 +423,7 @@ func pdfFile(p *program) []byte {
 		if res != "" {
 			d += "/Resources<<" + res + ">>"
 		}
-		add(stream(d, render(f.ops)))
+		add(stream(d, f.data()))
 	}
 	objs[2] = "<</Type/Page/Parent 2 0 R/MediaBox[0 0 612 792]/Resources<<" + fonts + xobj(top) + ">>/Contents 4 0 R>>"
 	var b bytes.Buffer
